@@ -77,6 +77,7 @@ func runC07(c *Ctx) {
 	c07ForOrder(c, es)
 	c07IfElse(c, es)
 	c07Return(c, es)
+	sentinelIdentity(c, "R8")
 	c.shared("R7", "C02/R3", "next and exit are consumed exactly by the rule drivers: every test against errNext / errExit sits in a driver, so a `next` leaves the current rule list and an `exit` the run from any nesting of statements", nil, c02R3)
 	mapRangeOrder(c, "R5")
 	c07ForIn(c, es)
@@ -317,13 +318,14 @@ func c07ForIn(c *Ctx, es *ssa.Function) {
 		c.check(len(miss)+len(extra) == 0, "R7", "for-in "+t, p.Pos(es.Pos()), strings.Join(want[t], " ; "), fmt.Sprintf("for-in over a %s binds {%s}; documented {%s}", t, keysOf(got[t]), strings.Join(want[t], " ; ")))
 	}
 	// string: character and offset from Go's range over the string
+	// Go's range over the string itself: next(range(s))#1 is the byte offset, #2 the character
 	strOK := len(got["ValueStr"]) == 2
 	for k := range got["ValueStr"] {
-		if !(strings.HasPrefix(k, "loopvar := lang.Value{Tag: ValueStr, Str: &string(") || strings.HasPrefix(k, "second := lang.NewValue(")) {
+		if !(strings.HasPrefix(k, "loopvar := lang.Value{Tag: ValueStr, Str: &string(next(range(*IT.Str))#2)") || k == "second := lang.NewValue(next(range(*IT.Str))#1)") {
 			strOK = false
 		}
 	}
-	c.check(strOK, "R7", "for-in ValueStr", p.Pos(es.Pos()), "character as a string, byte offset", "for-in over a string binds {"+keysOf(got["ValueStr"])+"}")
+	c.check(strOK, "R7", "for-in ValueStr", p.Pos(es.Pos()), "character as a string, byte offset: "+keysOf(got["ValueStr"]), "for-in over a string binds {"+keysOf(got["ValueStr"])+"}")
 	// other kinds: error
 	ek := EKOf(p)
 	for _, r := range returnsOf(es) {
@@ -393,5 +395,37 @@ func c07Dispatch(c *Ctx) {
 			}
 			c.check(have[t], "R6", x.iface+" "+t, p.Pos(fn.Pos()), "has an arm in "+x.fn, "the parser builds *"+t+" nodes but "+x.fn+" has no case for them: they fall into the `expected a …` error arm")
 		}
+	}
+}
+
+// sentinelIdentity: break / continue / return / next / exit travel as error values compared by
+// identity; nothing between the statement that raises one and the construct that consumes it may
+// turn it into another error value.
+func sentinelIdentity(c *Ctx, rule string) {
+	p := c.P
+	ek := EKOf(p)
+	c.note("%s signal-identity: the control-flow signals are plain error values recognised by identity (==). Obligation: at every err.Error() call in package lang — the only way an error is rebuilt from another one here — the error cannot be one of the signals (error-kind inference, edge-wise). Frozen exception: EvalExpression, the root-selector boundary, which deliberately reports a signal as the runtime error `<signal> is not allowed here` (fix c569c0e).", rule)
+	n := 0
+	for _, fn := range p.Funcs {
+		if !p.InLang(fn) {
+			continue
+		}
+		for _, call := range callsIn(fn) {
+			cc := call.Common()
+			if !cc.IsInvoke() || cc.Method.Name() != "Error" || !isErrorType(cc.Value.Type()) {
+				continue
+			}
+			n++
+			k := ek.KindsPathwise(cc.Value, call.Block(), 6) & ek.AllSentinels()
+			key := fmt.Sprintf("error-rebuilt #%d in %s", n, shortName(fn))
+			if shortName(fn) == "lang.EvalExpression" {
+				c.ok(rule, key, p.InstrPos(call), "exception: the selector boundary names the signal in a runtime error")
+				continue
+			}
+			c.check(k == 0, rule, key, p.InstrPos(call), "never applied to a control-flow signal", "the error rebuilt here from its text may be the signal "+ek.kindNames(k)+": wrapped, it is no longer recognised by the loop / call / rule driver that should consume it, and `"+strings.Trim(ek.kindNames(k), "{}")+"` surfaces as a runtime error")
+		}
+	}
+	if n < 12 {
+		c.undecided(rule, "instance-floor", "", fmt.Sprintf("%d err.Error() sites in package lang, 18 confirmed by hand", n))
 	}
 }
